@@ -171,6 +171,8 @@ def run(ctx: Ctx) -> None:
             ctx.corr_compared += 1
             if a != b:
                 ctx.mismatch("env bookkeeping: implementation and model differ", {"R": m[0], "input": m[1], "history": m[2], "impl": a[:500], "model": b[:500]})
+        from . import pipeline
+        pipeline.tie_full(ctx, drv, 3000 if quick else 80000, ref=True)      # the reference rule itself, end to end (driver `fullparser`)
     finally:
         drv.close()
     # ---- label matching and reference form == inline form
